@@ -73,6 +73,17 @@ CLAIMED = {
          "glue, tracker's reading of RFC 9113; TLS/ALPN paths not built",
     technique="Coq-extracted RFC tracker as runtime monitor over exhaustive/random frame sequences + Coq proofs of tracker clauses over the executable HTTP/2 model",
     design="5/C05"),
+ "C07": dict(
+    text="Coq proofs over an RFC 7541 specification (decoder, encoder family, Huffman trie, dynamic table) built on the tables regenerated from "
+         "ls-hpack and h2.c: integer and Huffman round-trips (prefix-freeness over the regenerated code table), decode(encode) = identity with "
+         "decoder table = encoder table for every header list, every representation choice, every table-size schedule and every number of blocks, "
+         "id-map consistency; the implementation is compared against the extracted spec in both directions through the in-process h2 harness "
+         "(requests incl. discarded blocks, responses incl. CONTINUATION and length sweeps, all single-bit corruptions)",
+    note="trusted: Coq kernel, c2v.py, extraction, harness glue, python comparison (HTTP-level normalisation: repeated fields joined, surrounding "
+         "whitespace, host vs :authority); ls-hpack's internal history/hash policy is not modelled (validated per block); three genuine deviations of the "
+         "vendored codec are recorded as known findings",
+    technique="Coq proof over executable RFC 7541 spec + differential correspondence both directions (extracted OCaml vs in-process h2.c/ls-hpack)",
+    design="5/C07"),
 }
 NOT_YET = "no check built yet in this round (planned, see DESIGN.md section 5)"
 
